@@ -19,7 +19,7 @@ Theorem C19_valid_takes_effect : forall step, (step = legacy_step \/ step = opl_
 Proof. exact valid_takes_effect. Qed.
 (* an event on one file never changes what another file contributes *)
 Theorem C19_other_files_untouched : forall step, (step = legacy_step \/ step = opl_step) ->
-  forall s e f, (match e with WChange g _ | WRemove g => bytes_eqb g f end) = false -> good (wget (step s e) f) = good (wget s f).
+  forall s e f, (match e with WChange g _ | WRemove g => bytes_eqb g f | WTouch => false end) = false -> good (wget (step s e) f) = good (wget s f).
 Proof. exact other_files_untouched. Qed.
 (* never partial: the visible namespaces are, file by file, the whole last valid version *)
 Theorem C19_visible : forall step, (step = legacy_step \/ step = opl_step) ->
@@ -28,3 +28,6 @@ Theorem C19_visible : forall step, (step = legacy_step \/ step = opl_step) ->
 Proof. exact visible_history. Qed.
 Theorem C19_never_nothing : forall s f ns, good (wget s f) = Some ns -> In f (map fst s).
 Proof. exact valid_version_is_tracked. Qed.
+(* an edit of the main configuration file that does not concern the namespaces changes nothing (fix D21) *)
+Theorem C19_config_touch : forall step, (step = legacy_step \/ step = opl_step) -> forall s, step s WTouch = s.
+Proof. exact config_touch_changes_nothing. Qed.
